@@ -19,7 +19,6 @@ package apph
 import (
 	"fmt"
 	"math/big"
-	"os"
 	"sort"
 	"strings"
 
@@ -67,10 +66,7 @@ func (m *allegMonitor) afterBegin(h, now int64, pre, post *AState) {
 		if b != nil && c != nil {
 			want := new(big.Int).Sub(b.Staking, p)
 			if c.Staking.Cmp(want) != 0 {
-				m.x.res.Counters["delayed_power_update_not_applied"]++
-				if os.Getenv("OLH_ALLEG_DEBUG") != "" {
-					m.hit("debug-delayed-power-update-not-applied", "block %d: %s staking %s -> %s, penalty %s", h, a, b.Staking, c.Staking, p)
-				}
+				m.hit("delayed-power-update-not-applied", "block %d: validator record of %s staking %s -> %s, the penalty of the previous block was %s", h, a, b.Staking, c.Staking, p)
 			} else {
 				m.x.res.Counters["delayed_power_update_applied"]++
 			}
@@ -222,18 +218,19 @@ func (m *allegMonitor) afterEnd(h, now int64, pre, afterBegin, before, after *AS
 			continue
 		}
 		if isEl[a] {
+			sig := "frozen-validator-elected"
 			if h <= o.BlockVotesDiff {
-				m.hit("frozen-validator-elected-inside-first-votes-window", "block %d (missed-votes window %d): validator %s, frozen since height %d, was elected again (positive power update)", h, o.BlockVotesDiff, a, afterBegin.Susp[a].FH)
-			} else {
-				m.hit("frozen-validator-elected", "block %d: validator %s frozen since height %d is in the update list with positive power", h, a, afterBegin.Susp[a].FH)
+				sig = "frozen-validator-elected-inside-first-votes-window"
 			}
+			m.hit(sig, "block %d (missed-votes window %d): validator %s frozen since height %d is in the update list with positive power", h, o.BlockVotesDiff, a, afterBegin.Susp[a].FH)
 		} else if h > 1 && pre.Vals[a] != nil {
 			if after.isActive(a) {
 				m.hit("frozen-validator-still-active-status", "block %d: %s", h, a)
 			}
 			m.x.res.Counters["frozen_not_elected"]++
 		}
-		if h > o.BlockVotesDiff && pre.Vals[a] != nil {
+		if pre.Vals[a] != nil && len(elected) > 0 {
+			// (with nobody elected the application keeps the last set: it never empties Tendermint's)
 			m.frozenRun[a]++
 		} else {
 			// (a validator whose record was deleted is never purged again: C10, not this property)
@@ -285,8 +282,9 @@ func (m *allegMonitor) afterEnd(h, now int64, pre, afterBegin, before, after *AS
 				continue
 			}
 			cnt[v.Addr] = true
-			// currently active: active before and after this block's election pass
-			act := before.isActive(v.Addr) || after.isActive(v.Addr)
+			// currently active: the status record as rewritten by this block's election pass, the
+			// same basis as the active count the required number of votes is computed from
+			act := after.isActive(v.Addr)
 			switch v.Choice {
 			case 1:
 				yesAll++
@@ -372,6 +370,9 @@ func (m *allegMonitor) afterEnd(h, now int64, pre, afterBegin, before, after *AS
 			if v == nil {
 				m.hit("penalty-without-validator-record", "%s", detail)
 				continue
+			}
+			if c := after.Vals[q.Accused]; c != nil {
+				v = c // the slash charges the stake address the validator has now
 			}
 			stake := before.Total[q.Accused]
 			if stake == nil {
